@@ -217,13 +217,48 @@ PickNoFilter ==
                    fts |-> <<>>, sfts |-> <<>>, enc |-> plain]
     /\ pc' = "case"
 
-Next == PickPaethLeft \/ PickPaethPlane \/ PickA85 \/ PickA85Ws \/ PickZ \/ PickLzw \/ PickLzwLong \/ PickPng \/ PickPngBytes \/ PickPaeth \/ PickRow \/ PickChain \/ PickNoFilter
+\* Disturbances: streams that the thread may have decoded before a judged case (history independence).  A wide
+\* predictor frame (2 rows of 20 non-zero bytes, first row Up, second Paeth) is damaged at every possible point:
+\* the PNG data cut at each offset, an invalid filter-type byte in row k, the zlib stream cut at each offset, the
+\* ASCII85 text cut at each offset or with an overflowing group, an LZW stream with an undefined code; and the
+\* legal frame itself.  Every damaged stream fails in the reference decoder (DisturbFails).
+WideData == [i \in 1..40 |-> ((i * 7 + 13) % 251) + 1]
+WideParms == Parms(12, 1, 8, 20, 1)
+WidePng == PngEncode(WideData, 1, 20, <<2, 4>>)
+WideZ == ZStored(WidePng, 16)
+WideA == A85Encode(WideZ, TRUE)
+Dist(kind, at, chain, form, enc) == [k |-> "disturb", kind |-> kind, at |-> at, chain |-> chain, form |-> form, ff |-> "std", enc |-> enc]
+Disturbances ==
+    {Dist("ok", 0, <<Stage(Flate, WideParms)>>, "dict", WideZ)}
+    \cup {Dist("png.cut-row", o, <<Stage(Flate, WideParms)>>, "dict", ZStored(SubSeq(WidePng, 1, o), 65535)) : o \in (1..41) \ {21}}
+    \cup {Dist("png.cut-row", o, <<Stage(Lzw, WideParms)>>, "dict", LzwEncode(SubSeq(WidePng, 1, o), 1, 4094)) : o \in {22, 31, 41}}
+    \cup {Dist("png.bad-type", k, <<Stage(Flate, WideParms)>>, "array", ZStored([WidePng EXCEPT ![(k - 1) * 21 + 1] = t], 65535)) :
+             k \in 1..2, t \in {5, 9, 255}}
+    \cup {Dist("zlib.cut", t, <<Stage(Flate, WideParms)>>, "dict", SubSeq(WideZ, 1, t)) : t \in 1..(Len(WideZ) - 1)}
+    \cup {Dist("a85.cut", t, <<Stage(A85, DefaultParms), Stage(Flate, WideParms)>>, "array", SubSeq(WideA, 1, t)) :
+             t \in {t \in 1..(Len(WideA) - 2) : t % 3 = 0}}
+    \cup {Dist("a85.bad-group", 1, <<Stage(A85, DefaultParms), Stage(Flate, WideParms)>>, "array", <<117, 117, 117, 117, 117>> \o WideA),
+          Dist("a85.bad-group", 40, <<Stage(A85, DefaultParms), Stage(Flate, WideParms)>>, "array", InsertAt(WideA, 40, 122)),
+          Dist("lzw.bad-code", 2, <<Stage(Lzw, WideParms)>>, "dict", <<128, 127, 255, 255>>),
+          Dist("lzw.bad-code", 9, <<Stage(Lzw, WideParms)>>, "dict",
+               SubSeq(LzwEncode(WidePng, 1, 4094), 1, 9) \o <<255, 255, 255, 255>>)}
+PickDisturb ==
+    /\ pc = "pick"
+    /\ \E d \in Disturbances : case' = d
+    /\ pc' = "case"
+
+Next == PickDisturb \/ PickPaethLeft \/ PickPaethPlane \/ PickA85 \/ PickA85Ws \/ PickZ \/ PickLzw \/ PickLzwLong \/ PickPng \/ PickPngBytes \/ PickPaeth \/ PickRow \/ PickChain \/ PickNoFilter
 
 Spec == Init /\ [][Next]_vars
 
 -----------------------------------------------------------------------------
 IsChain == pc = "case" /\ case.k = "chain"
 IsRow   == pc = "case" /\ case.k = "row"
+
+\* every damaged stream really fails in the reference decoder; the legal one decodes to the frame
+DisturbFails ==
+    (pc = "case" /\ case.k = "disturb") =>
+        IF case.kind = "ok" THEN Decode(case.enc, case.chain) = Good(WideData) ELSE ~Decode(case.enc, case.chain).ok
 
 \* (declarative) the reference decoder inverts the reference encoder, for every codec and chain
 RoundTrip == IsChain => Decode(case.enc, case.chain) = Good(case.plain)
@@ -286,6 +321,7 @@ RowOK == IsRow => /\ PngDecodeRow(case.ft, case.bpp, case.prev, PngEncodeRow(cas
 EmitInv ==
     (Emit /\ pc = "case") =>
         IF case.k = "prow" THEN PrintT(<<"PAETH", ToJson([a |-> case.a, b |-> case.b, row |-> case.row])>>) ELSE
+        IF case.k = "disturb" THEN PrintT(<<"DISTURB", ToJson(case)>>) ELSE
         PrintT(<<"REPLAY",
                  IF case.k = "chain"
                  THEN ToJson([k |-> "chain", fam |-> case.fam, plain |-> case.plain, enc |-> case.enc, chain |-> case.chain,
